@@ -282,8 +282,11 @@ class SqliteStorage(AbstractStorage):
             "INSERT INTO events(bucketrow, starttime, endtime, datastr) "
             + "VALUES ((SELECT rowid FROM buckets WHERE id = ?), ?, ?, ?)"
         )
-        self.conn.executemany(query, event_rows)
-        self.conditional_commit(len(event_rows))
+        try:
+            self.conn.executemany(query, event_rows)
+        finally:
+            # Rows inserted before a failing row stay in the open transaction, keep them counted
+            self.conditional_commit(len(event_rows))
 
     def replace_last(self, bucket_id, event):
         starttime, endtime = _event_to_us(event)
